@@ -5,18 +5,24 @@ import kani, _kprop
 FUNCS = ["metrics_util::layers::prefix::Prefix::{prefix_key,prefix_key_name,describe_*,register_*}", "metrics_util::layers::fanout::{Fanout,FanoutCounter,FanoutGauge,FanoutHistogram}::*",
          "metrics_util::layers::Stack::{new,push}", "metrics_util::layers::PrefixLayer::layer"]
 B = "names, prefixes, label parts: 1-byte strings with symbolic content; <=1 label; unit symbolic among 4; operation symbolic among the 3 describe or the 3 register calls"
+BR = "names, prefixes, label parts: 1-byte strings with symbolic content; operation and label count (0 or 1) concrete per harness (a symbolic slice length is out of reach: > 600 s)"
 HARNESSES = [
     kani.H("c13_prefix_describe", "prefix layer, describe_*: inner recorder receives '<prefix>.<name>' once, unit and description unchanged", B, 600, functions=FUNCS),
-    kani.H("c13_prefix_register_counter", "prefix layer, register_counter: name prefixed, labels and metadata unchanged, the handle update reaches the inner handle", B, 600, functions=FUNCS),
-    kani.H("c13_prefix_register_gauge", "prefix layer, register_gauge: likewise", B, 600, tier="thorough", functions=FUNCS),
-    kani.H("c13_prefix_register_histogram", "prefix layer, register_histogram: likewise", B, 600, tier="thorough", functions=FUNCS),
-    kani.H("c13_prefix_register", "prefix layer, register_*, the operation symbolic among the three", B, 1800, tier="thorough", functions=FUNCS),
+    kani.H("c13_prefix_register_counter_0", "prefix layer, register_counter, no labels: name prefixed, metadata unchanged, the handle update reaches the inner handle", BR, 600, functions=FUNCS),
+    kani.H("c13_prefix_register_counter_1", "prefix layer, register_counter, one label: labels unchanged as well", BR, 600, functions=FUNCS),
+    kani.H("c13_prefix_register_gauge_0", "prefix layer, register_gauge, no labels", BR, 600, functions=FUNCS),
+    kani.H("c13_prefix_register_gauge_1", "prefix layer, register_gauge, one label", BR, 600, tier="thorough", functions=FUNCS),
+    kani.H("c13_prefix_register_histogram_0", "prefix layer, register_histogram, no labels", BR, 600, tier="thorough", functions=FUNCS),
+    kani.H("c13_prefix_register_histogram_1", "prefix layer, register_histogram, one label", BR, 600, functions=FUNCS),
     kani.H("c13_fanout_0", "fanout of width 0", B, 300, functions=FUNCS),
     kani.H("c13_fanout_1_describe", "fanout width 1, describe_*", B, 300, functions=FUNCS),
     kani.H("c13_fanout_2_describe", "fanout width 2, describe_*: every recorder once, in order", B, 400, functions=FUNCS),
     kani.H("c13_fanout_3_describe", "fanout width 3, describe_*", B, 900, tier="thorough", functions=FUNCS),
-    kani.H("c13_fanout_1_register", "fanout width 1, register_* + update through the fanned-out handle", B, 900, tier="thorough", functions=FUNCS),
-    kani.H("c13_fanout_2_register", "fanout width 2, register_* + update reaches each inner handle once", B, 1800, tier="thorough", functions=FUNCS),
+    kani.H("c13_fanout_1_register_counter_0", "fanout width 1, register_counter + update through the fanned-out handle", BR, 600, tier="thorough", functions=FUNCS),
+    kani.H("c13_fanout_1_register_gauge_1", "fanout width 1, register_gauge with a label + update", BR, 600, tier="thorough", functions=FUNCS),
+    kani.H("c13_fanout_2_register_counter_1", "fanout width 2, register_counter with a label: each inner recorder registers once, the update reaches each inner handle once", BR, 900, functions=FUNCS),
+    kani.H("c13_fanout_2_register_gauge_0", "fanout width 2, register_gauge", BR, 900, tier="thorough", functions=FUNCS),
+    kani.H("c13_fanout_2_register_histogram_1", "fanout width 2, register_histogram with a label", BR, 900, tier="thorough", functions=FUNCS),
     kani.H("c13_fanout_updates", "fanout width 2: each of increment/absolute/inc/dec/set/record reaches each inner handle once with the same value", "arbitrary u64/f64 values", 400, functions=FUNCS),
     kani.H("c13_stack", "Stack::push composes in push order (last pushed is outermost); prefix over fanout reaches both", B, 600, functions=FUNCS),
 ]
